@@ -32,8 +32,78 @@ func (p *Program) TypeExpr(id int) string {
 		return "string"
 	case KArr:
 		return "[2]uint64"
+	case KExt:
+		return fmt.Sprintf("hb.X%d", id)
+	case KExtPtr:
+		return fmt.Sprintf("*hb.X%d", id)
+	case KVis:
+		return fmt.Sprintf("hc.Y%d", id)
+	case KVisPtr:
+		return fmt.Sprintf("*hc.Y%d", id)
 	}
 	panic("kind")
+}
+
+// mkExpr / unExpr wrap a token into / unwrap it from type id. In the program's
+// own file the generated mkT/unT helpers do it; the helper package ha has to
+// spell it out (it cannot import the program's package).
+func (p *Program) mkExpr(id int, tok string, helper bool) string {
+	if !helper {
+		return fmt.Sprintf("mkT%d(%s)", id, tok)
+	}
+	switch p.Types[id] {
+	case KU64:
+		return tok
+	case KI64:
+		return "int64(" + tok + ")"
+	case KStr:
+		return "rt.TokStr(" + tok + ")"
+	case KArr:
+		return "[2]uint64{" + tok + ", " + tok + "}"
+	case KExt, KExtPtr:
+		return fmt.Sprintf("hb.MkX%d(%s)", id, tok)
+	case KVis, KVisPtr:
+		return fmt.Sprintf("hc.MkY%d(%s)", id, tok)
+	}
+	panic("helper package cannot name a type of the program's package")
+}
+
+func (p *Program) unExpr(id int, v string, helper bool) string {
+	if !helper {
+		return fmt.Sprintf("unT%d(%s)", id, v)
+	}
+	switch p.Types[id] {
+	case KU64:
+		return v
+	case KI64:
+		return "uint64(" + v + ")"
+	case KStr:
+		return "rt.StrTok(" + v + ")"
+	case KArr:
+		return v + "[0]"
+	case KExt, KExtPtr:
+		return fmt.Sprintf("hb.UnX%d(%s)", id, v)
+	case KVis, KVisPtr:
+		return fmt.Sprintf("hc.UnY%d(%s)", id, v)
+	}
+	panic("helper package cannot name a type of the program's package")
+}
+
+// extDecl declares type id in its helper package (hb: X, hc: Y).
+func (p *Program) extDecl(id int) string {
+	n, ptr := "X", false
+	switch p.Types[id] {
+	case KExtPtr:
+		ptr = true
+	case KVis:
+		n = "Y"
+	case KVisPtr:
+		n, ptr = "Y", true
+	}
+	if ptr {
+		return fmt.Sprintf("type %[1]s%[2]d struct{ V uint64 }\n\nfunc Mk%[1]s%[2]d(v uint64) *%[1]s%[2]d {\n\tif v == 0 {\n\t\treturn nil\n\t}\n\treturn &%[1]s%[2]d{V: v}\n}\n\nfunc Un%[1]s%[2]d(x *%[1]s%[2]d) uint64 {\n\tif x == nil {\n\t\treturn 0\n\t}\n\treturn x.V\n}\n\n", n, id)
+	}
+	return fmt.Sprintf("type %[1]s%[2]d struct {\n\tV uint64\n\tpad string\n}\n\nfunc Mk%[1]s%[2]d(v uint64) %[1]s%[2]d { return %[1]s%[2]d{V: v} }\n\nfunc Un%[1]s%[2]d(x %[1]s%[2]d) uint64 { return x.V }\n\n", n, id)
 }
 
 func (p *Program) typeDecls(b *strings.Builder) {
@@ -64,6 +134,10 @@ func (p *Program) typeDecls(b *strings.Builder) {
 			fmt.Fprintf(b, "func mkT%d(v uint64) string { return rt.TokStr(v) }\nfunc unT%d(x string) uint64 { return rt.StrTok(x) }\n\n", id, id)
 		case KArr:
 			fmt.Fprintf(b, "func mkT%d(v uint64) [2]uint64 { return [2]uint64{v, v} }\nfunc unT%d(x [2]uint64) uint64 { return x[0] }\n\n", id, id)
+		case KVis, KVisPtr:
+			fmt.Fprintf(b, "func mkT%d(v uint64) %s { return hc.MkY%d(v) }\nfunc unT%d(x %s) uint64 { return hc.UnY%d(x) }\n\n", id, te, id, id, te, id)
+		case KExt, KExtPtr:
+			// declared in hb, which this file must not import: no helpers here
 		}
 	}
 	if generic {
@@ -146,6 +220,7 @@ type printer struct {
 	site   int
 	decls  strings.Builder // top-level declarations (functions, methods)
 	pre    strings.Builder // statements before the directive
+	helper strings.Builder // functions of the helper package ha (spelling SpImport)
 	poison strings.Builder // Bare programs: assignments run when the first user function is entered
 	nbare  int
 }
@@ -174,7 +249,7 @@ func (pr *printer) wp(expr, poison string) string {
 }
 
 func (pr *printer) fnPoisonIf(f *Fn, c *Coll) string {
-	if !pr.p.Bare {
+	if !pr.p.Bare || f.Spell == SpImport {
 		return ""
 	}
 	return pr.fnPoison(f, c)
@@ -233,7 +308,7 @@ func (pr *printer) fnParts(f *Fn, c *Coll) (params, results, body string) {
 	default:
 		for i, in := range f.Ins {
 			ps = append(ps, fmt.Sprintf("a%d %s", i, p.TypeExpr(in)))
-			args = append(args, fmt.Sprintf("unT%d(a%d)", in, i))
+			args = append(args, p.unExpr(in, fmt.Sprintf("a%d", i), f.Spell == SpImport))
 		}
 	}
 	var rs []string
@@ -244,7 +319,7 @@ func (pr *printer) fnParts(f *Fn, c *Coll) (params, results, body string) {
 	}
 	for i, out := range f.Outs {
 		rs = append(rs, p.TypeExpr(out))
-		rets = append(rets, fmt.Sprintf("mkT%d(r.Out(%d))", out, i))
+		rets = append(rets, p.mkExpr(out, fmt.Sprintf("r.Out(%d)", i), f.Spell == SpImport))
 	}
 	if f.Err {
 		rs = append(rs, "error")
@@ -292,6 +367,9 @@ func (pr *printer) fnExpr(f *Fn, c *Coll) string {
 	case SpGeneric:
 		fmt.Fprintf(&pr.decls, "func genF%d[Q any](%s)%s {\n%s}\n\n", f.ID, params, results, body)
 		return fmt.Sprintf("genF%d[int]", f.ID)
+	case SpImport:
+		fmt.Fprintf(&pr.helper, "func F%d(%s)%s {\n%s}\n\n", f.ID, params, results, body)
+		return fmt.Sprintf("ha.F%d", f.ID)
 	default: // SpTop
 		fmt.Fprintf(&pr.decls, "func topF%d(%s)%s {\n%s}\n\n", f.ID, params, results, body)
 		return fmt.Sprintf("topF%d", f.ID)
@@ -343,9 +421,47 @@ func orderOpts(opts []opt) []string {
 	return out
 }
 
-// Source prints the program as a cff-tagged Go file.
+// Source prints the program's own file (programs without helper packages).
 func (p *Program) Source() string {
+	return p.Files("scratch/" + p.Name)["p.go"]
+}
+
+// Files prints the program as a cff-tagged Go file p.go plus, when functions
+// are imported, its helper packages (ha/ha.go, hb/hb.go, hc/hc.go); base is
+// the import path of the program's package.
+func (p *Program) Files(base string) map[string]string {
+	p.Base = base
 	pr := &printer{p: p}
+	main := pr.source()
+	out := map[string]string{"p.go": main}
+	if pr.helper.Len() == 0 {
+		return out
+	}
+	var hb, hc strings.Builder
+	for id := 1; id < len(p.Types); id++ {
+		switch p.Types[id] {
+		case KExt, KExtPtr:
+			hb.WriteString(p.extDecl(id))
+		case KVis, KVisPtr:
+			hc.WriteString(p.extDecl(id))
+		}
+	}
+	imports := "\t\"context\"\n\n\t\"vg/rt\"\n"
+	use := "var _ = context.Background\n\nvar _ = rt.TokStr\n\n"
+	if hb.Len() > 0 {
+		out["hb/hb.go"] = "// Package hb holds value types that the program's file never imports.\npackage hb\n\n" + hb.String()
+		imports += "\t\"" + base + "/hb\"\n"
+	}
+	if hc.Len() > 0 {
+		out["hc/hc.go"] = "// Package hc holds value types that the program's file imports.\npackage hc\n\n" + hc.String()
+		imports += "\t\"" + base + "/hc\"\n"
+	}
+	out["ha/ha.go"] = "// Package ha holds task and predicate functions of the program.\npackage ha\n\nimport (\n" + imports + ")\n\n" + use + pr.helper.String()
+	return out
+}
+
+func (pr *printer) source() string {
+	p := pr.p
 	var opts []string
 	ctxExpr := ""
 	var post strings.Builder
@@ -455,7 +571,17 @@ func (p *Program) Source() string {
 	var b strings.Builder
 	b.WriteString("//go:build cff\n\n")
 	fmt.Fprintf(&b, "package %s\n\n", p.Name)
-	b.WriteString("import (\n\t\"context\"\n\n\t\"go.uber.org/cff\"\n\t\"vg/rt\"\n)\n\n")
+	b.WriteString("import (\n\t\"context\"\n\n\t\"go.uber.org/cff\"\n")
+	if pr.helper.Len() > 0 {
+		fmt.Fprintf(&b, "\t\"%s/ha\"\n", p.Base)
+		for id := 1; id < len(p.Types); id++ {
+			if p.Types[id] == KVis || p.Types[id] == KVisPtr {
+				fmt.Fprintf(&b, "\t\"%s/hc\"\n", p.Base)
+				break
+			}
+		}
+	}
+	b.WriteString("\t\"vg/rt\"\n)\n\n")
 	b.WriteString("var _ = context.Background\n\n")
 	desc, _ := json.Marshal(p)
 	fmt.Fprintf(&b, "const desc = `%s`\n\n", desc)
